@@ -8,7 +8,8 @@ Tie: a real Client (bare), a real TcpClientStack over it, or a real Patron over 
      reported address, stack's local.ha.
 Oracle (independent of the model): connected => reported address is the live socket's; not reconnectable + cut off =>
      no socket is opened; listening server + reconnectable + timeout elapsed => connected within k+1 further calls.
-The unchanged tree is the tree this check is meant for (two known findings, D27 and D28)."""
+The tree this check is meant for: /repo with fix D27 (Client.serviceConnect reopens a cut off client); one known
+finding, D28."""
 import errno, itertools
 import core
 
@@ -93,7 +94,7 @@ class CHECK(core.Check):
             "with dt constant below/above timeout/(k-1), or random. Bounded-exhaustive: kinds x reconnectable x k in 1..3 x "
             "dt in {50,100,150,250} x timeout in {200,400} x 4 ways of losing the connection, 12 rounds. Non-trivial = at least "
             "one socket reopened by the code and at least one connect_ex after it; distinct by case.")
-    TRUSTED = ["correspondence: real clienting.Client / stacking.TcpClientStack / http.clienting.Patron on a socket double "
+    TRUSTED = ["correspondence: real clienting.Client (tree with fix D27) / stacking.TcpClientStack / http.clienting.Patron on a socket double "
                "(module name `socket` shimmed inside tcp.clienting for the case) vs Lean driver 'reconnect'; compared per call: "
                "sockets opened/closed, connect_ex calls with answers, .connected/.cutoff/.opened, live socket, .ca, stack local.ha",
                "time on the grid 1/1024 s; the listening server is the double's rule 'n-th connect_ex on a socket answers "
@@ -103,8 +104,6 @@ class CHECK(core.Check):
     PARTIAL = ["C27_reconnects_within_partial: liveness under the pacing hypothesis (the first k-1 service calls after a reopen "
                "come before the reconnect timer expires again); without it the client can livelock (known finding D28, "
                "C27_counterexample_livelock)",
-               "a bare Client that is cut off is never reopened by Client.serviceConnect (known finding D27, "
-               "C27_counterexample_bare_stays_cut_off); TcpClientStack.serviceConnect and Patron.serviceAll do reopen it",
                "fairness of the OS / network (a listening server answers within k calls) is a hypothesis, exercised only by the "
                "double and one loopback run"]
     TECHNIQUE = ("Lean 4 theorems (bounded liveness by induction on the latency k under explicit environment and pacing "
@@ -113,12 +112,13 @@ class CHECK(core.Check):
     LEVEL_TEXT = ("Proved on the model for every timeout, every latency k and every schedule: C27_reconnects_within_partial (from "
                   "the state a timer-driven reopen leaves, a listening server of latency k and k-1 calls before the next expiry "
                   "=> connected after k calls, bare/stack/patron), C27_stack_reconnects_after_cutoff, "
-                  "C27_patron_reconnects_after_cutoff (k+1 / k calls from the first call at which the timer has expired), "
+                  "C27_patron_reconnects_after_cutoff, C27_bare_reconnects_after_cutoff (k+1 / k / k calls from the first call at "
+                  "which the timer has expired), "
                   "C27_timer_reopen_restarts(_any) (that call leaves exactly that state, from any unconnected state), "
                   "C27_bare_reconnects_after_timer (end to end for a client whose attempts failed), C27_reports_live_addresses (invariant over all "
                   "histories), C27_stack_local_ha, C27_non_reconnectable_stays_closed (all histories of service calls). Full "
-                  "statement C27_full is false on the code: C27_counterexample_livelock (D28) and "
-                  "C27_counterexample_bare_stays_cut_off (D27) are known findings.")
+                  "statement C27_full is false on the code: C27_counterexample_livelock (D28, known finding). "
+                  "C27_counterexample_asis_bare_stays_cut_off documents the behaviour before fix D27.")
     LEVEL_NOTE = ("Trusted: Lean kernel; axioms propext, Classical.choice, Quot.sound; the hand transcription of the connection "
                   "management of Client, TcpClientStack.serviceConnect and Patron.serviceAll, validated by the correspondence runs "
                   "on a socket double; liveness is relative to the stated assumptions about the server and the call schedule.")
@@ -300,13 +300,13 @@ class CHECK(core.Check):
             if (tok[0] == "S" and case["kind"] != "stack") or (tok[0] == "H" and case["kind"] != "patron"):
                 return ["bad-request"]
         # the two region predicates ride along so that attributing a failing input costs no extra driver process
-        return [self._req(case), self._req(case, "region D27"), self._req(case, "region D28")]
+        return [self._req(case), self._req(case, "region D28")]
 
     _regions = {}
 
     def model_post(self, case, replies):
-        if len(replies) == 3:
-            self._regions[core.case_key(case)] = {"D27": replies[1] == "true", "D28": replies[2] == "true"}
+        if len(replies) == 2:
+            self._regions[core.case_key(case)] = {"D28": replies[1] == "true"}
         return replies[0].split(" | ")
 
     # ---- oracle
@@ -393,7 +393,7 @@ class CHECK(core.Check):
 
     def region(self, finding, case):
         fid = finding.get("id")
-        if fid in ("D27", "D28"):
+        if fid == "D28":
             hit = self._regions.get(core.case_key(case))
             if hit is not None:
                 return hit[fid]
@@ -416,12 +416,9 @@ class CHECK(core.Check):
         cands = [c for c in cands if self.requests(c) != ["bad-request"]]
         if not cands:
             return
-        lines = []
-        for c in cands:
-            lines += [self._req(c, "region D27"), self._req(c, "region D28")]
-        rep = core.Driver(self.ENGINE).run(lines)
-        for i, c in enumerate(cands):
-            if rep[2 * i] == "false" and rep[2 * i + 1] == "false":
+        rep = core.Driver(self.ENGINE).run([self._req(c, "region D28") for c in cands])
+        for c, r in zip(cands, rep):
+            if r == "false":
                 yield c
 
     # ---- extra evidence: down/up schedule over real loopback sockets
